@@ -355,7 +355,8 @@ def walk(dispatcher, node, definition=None):
                 dispatcher, lr_chunk.node, before_text, after_text, prev_text)
             if not gen:
                 continue
-            for chunk_from_layout in gen:
+            for chunk_from_layout in with_source(
+                    gen, layout_sources.get(id(lr_chunk.node))):
                 yield chunk_from_layout
                 prev_text = chunk_from_layout.text
 
@@ -363,7 +364,13 @@ def walk(dispatcher, node, definition=None):
     # an unnamed source stands for the source of the previous fragment.
     # Name it where that would be some other source (or none at all):
     # the source in effect where the layout rule was encountered.
-    def with_source(fragments, layout_source, effective):
+
+    # node id of a cached layout rule chunk -> the source in effect there
+    layout_sources = {}
+    # the source the latest fragment is attributed to.
+    effective = [None]
+
+    def with_source(fragments, layout_source):
         for fragment in fragments:
             if not isinstance(fragment, StreamFragment):
                 yield fragment
@@ -381,24 +388,19 @@ def walk(dispatcher, node, definition=None):
     def walk():
         last_chunk = None
         layout_rule_chunks = []
-        # the source in effect for the first of the cached layout rule
-        # chunks, and the source the latest fragment is attributed to.
-        layout_source = [None]
-        effective = [None]
 
         for chunk in _walk(dispatcher, node, definition):
             if isinstance(chunk, LayoutChunk):
-                if not layout_rule_chunks:
-                    layout_source[0] = sourcepath_stack[-1]
+                layout_sources[id(chunk.node)] = sourcepath_stack[-1]
                 layout_rule_chunks.append(chunk)
             else:
                 if has_layout:
                     # process layout rule chunks that had been cached.
-                    for chunk_from_layout in with_source(process_layouts(
-                            layout_rule_chunks, last_chunk, chunk),
-                            layout_source[0], effective):
+                    for chunk_from_layout in process_layouts(
+                            layout_rule_chunks, last_chunk, chunk):
                         yield chunk_from_layout
                 layout_rule_chunks[:] = []
+                layout_sources.clear()
                 yield chunk
                 if getattr(chunk, 'source', None) is not None:
                     effective[0] = chunk.source
@@ -406,9 +408,8 @@ def walk(dispatcher, node, definition=None):
 
         if has_layout:
             # process the remaining layout rule chunks.
-            for chunk_from_layout in with_source(process_layouts(
-                    layout_rule_chunks, last_chunk, None),
-                    layout_source[0], effective):
+            for chunk_from_layout in process_layouts(
+                    layout_rule_chunks, last_chunk, None):
                 yield chunk_from_layout
 
     for chunk in walk():
